@@ -304,3 +304,48 @@ package fox
 //@   modifies unlockedLoads[&fox.tree]
 //@   ensures snapshot: result.tree == published[&fox.tree] && result.root == published[&fox.tree].root && result.maxDepth == published[&fox.tree].depth
 //@   ensures one-load: unlockedLoads[&fox.tree] == old(unlockedLoads[&fox.tree]) + (held[&fox.mu] ? 0 : 1)
+
+//@ -- ---------------------------------------------------------------- Txn read methods: settled guard, no lock, no publication
+//@ -- selection inside a transaction is a function of the transaction's own root (tree only supplies pools and limits)
+//@ fun txnSel(root roots, method string, host string, path string) *node
+//@ fun txnSelTsr(root roots, method string, host string, path string) bool
+//@ pred txnQuiet(txn *Txn) = held[&txn.fox.mu] == old(held[&txn.fox.mu]) && lockOps[&txn.fox.mu] == old(lockOps[&txn.fox.mu]) && pubCount[&txn.fox.tree] == old(pubCount[&txn.fox.tree]) && published[&txn.fox.tree] == old(published[&txn.fox.tree])
+
+//@ func (*Txn).Has props C04,C06 partial
+//@   requires txn != nil && txn.fox != nil && (txn.rootTxn != nil ==> txn.rootTxn.tree != nil)
+//@   panics-when txn.rootTxn == nil
+//@   modifies heap, released
+//@   ensures quiet: txnQuiet(txn)
+
+//@ func (*Txn).Route props C04,C06 partial
+//@   requires txn != nil && txn.fox != nil && (txn.rootTxn != nil ==> txn.rootTxn.tree != nil)
+//@   assume-at call (*cTx).resetNil#1 : pool-discipline: c != nil && c.params != nil && c.tsrParams != nil && c.skipNds != nil
+//@   panics-when txn.rootTxn == nil
+//@   modifies heap, released
+//@   ensures quiet: txnQuiet(txn)
+//@   ensures own-root: txn.rootTxn == old(txn.rootTxn) && txn.rootTxn.root == old(txn.rootTxn.root) && txn.rootTxn.size == old(txn.rootTxn.size)
+
+//@ func (*Txn).Reverse props C04,C06 partial
+//@   requires txn != nil && txn.fox != nil && (txn.rootTxn != nil ==> txn.rootTxn.tree != nil)
+//@   assume-at call (*cTx).resetNil#1 : pool-discipline: c != nil && c.params != nil && c.tsrParams != nil && c.skipNds != nil
+//@   panics-when txn.rootTxn == nil
+//@   modifies heap, released
+//@   ensures quiet: txnQuiet(txn)
+//@   ensures own-root: txn.rootTxn == old(txn.rootTxn) && txn.rootTxn.root == old(txn.rootTxn.root) && txn.rootTxn.size == old(txn.rootTxn.size)
+
+//@ func (*Txn).Lookup props C04,C06,C12 partial
+//@   requires txn != nil && txn.fox != nil && r != nil && r.URL != nil && (txn.rootTxn != nil ==> txn.rootTxn.tree != nil)
+//@   assume-at call (*cTx).resetWithWriter#1 : pool-discipline: c != nil && c.params != nil && c.tsrParams != nil && c.skipNds != nil
+//@   panics-when txn.rootTxn == nil
+//@   modifies heap, released
+//@   ensures quiet: txnQuiet(txn)
+//@   ensures current-request: route != nil ==> cc != nil && dyntypeIs(cc, *cTx) && ctxOf(cc).req == r && ctxOf(cc).route == route && ctxOf(cc).tsr == tsr && ctxOf(cc).scope == RouteHandler && !released[cc]
+//@   ensures none: route == nil ==> cc == nil
+
+//@ func (*Txn).Iter props C04,C06,C03 partial
+//@   requires txn != nil && txn.fox != nil
+//@   panics-when txn.rootTxn == nil
+//@   modifies txn.rootTxn.writable, snapRef
+//@   ensures quiet: txnQuiet(txn)
+//@   ensures snapshot: result.tree == txn.rootTxn.tree && result.root == txn.rootTxn.root && result.maxDepth == txn.rootTxn.depth
+//@   ensures write-snapshot: txn.write ==> snapRef == nextref && cacheOK(txn.rootTxn)
